@@ -169,6 +169,12 @@ where
     W: Write + Send,
 {
     fn drop(&mut self) {
+        // a writer that was never used must still wait for its turn: releasing the next writer
+        // while the previous one is still in use would let a later response overtake it
+        if let Some(v) = self.trigger.take() {
+            v.recv().ok();
+        }
+
         self.on_finish.send(()).ok();
     }
 }
